@@ -427,7 +427,7 @@ def _unroll(fn, Z, with_tcx):
                 k = ev(f.slice)
                 args = [norm(a) for a in n.args]
                 if args != [ps[1], ps[2]]:
-                    raise AnalysisError('C09-R4: rate evaluated at %s instead of (%s, %s)' % (args, ps[1], ps[2]))
+                    return L('%s%s_evaluated_at_%s' % (coef[f.value.id], k, '_'.join(args)))
                 if not isinstance(k, int) or not (0 <= k <= Z):
                     return L('%s_out_of_range_%s' % (coef[f.value.id], k))
                 return L(coef[f.value.id] + str(k))
@@ -527,3 +527,25 @@ def _r4(run, mi):
             else:
                 run.ok('C09-R4', tag, '%d entries; all columns sum to zero' % len(M), sample=(Z in (1, 2) or (Z == 18 and tcx)))
     run.floor('C09-R4', 36)
+
+
+MUTANTS = [
+    dict(name='D14-reintroduced', file=FILE,
+         find="    elif tcx_donor is None:\n        coef_tcx = None\n\n    # calculate fractional abundance for the element\n    fractional_abundance = _fractional_abundance_point(element, n_e, t_e, coef_ion, coef_recom, coef_tcx,\n                                                       tcx_donor_n)",
+         replace="    else:\n        coef_tcx = None\n\n    # calculate fractional abundance for the element\n    fractional_abundance = _fractional_abundance_point(element, n_e, t_e, coef_ion, coef_recom, coef_tcx,\n                                                       tcx_donor_n)", expect='C09-R1'),
+    dict(name='wrapper-drops-donor-density', file=FILE,
+         find="    fractional_profiles = interpolators1d_fractional(atomic_data, element, psin_1d, n_e_profile, t_e_profile,\n                                                     tcx_donor, tcx_donor_n, tcx_donor_charge)",
+         replace="    fractional_profiles = interpolators1d_fractional(atomic_data, element, psin_1d, n_e_profile, t_e_profile,\n                                                     tcx_donor)", expect='C09-R2'),
+    dict(name='cx-term-on-wrong-neighbour', file=FILE, find="            matbal[i, i + 1] += tcx_donor_density / n_e * coef_tcx[i + 1](n_e, t_e)",
+         replace="            matbal[i, i - 1] += tcx_donor_density / n_e * coef_tcx[i + 1](n_e, t_e)", expect='C09-R4'),
+    dict(name='matrix-sign', file=FILE, find="    matbal[-1, -2] += coef_ion[atomic_number - 1](n_e, t_e)", replace="    matbal[-1, -2] -= coef_ion[atomic_number - 1](n_e, t_e)", expect='C09-R4'),
+    dict(name='index-slip', file=FILE, find="        matbal[i, i + 1] += coef_recom[i + 1](n_e, t_e)", replace="        matbal[i, i + 1] += coef_recom[i](n_e, t_e)", expect='C09-R4'),
+    dict(name='bounds-0-1', file=FILE, find="bounds=(0, n_e)", replace="bounds=(0, 1)", expect='C09-R3'),
+    dict(name='cx-not-scaled-by-ne', file=FILE, find="        matbal[0, 1] += tcx_donor_density / n_e * coef_tcx[1](n_e, t_e)", replace="        matbal[0, 1] += tcx_donor_density * coef_tcx[1](n_e, t_e)", expect='C09-R4'),
+    dict(name='rates-at-swapped-arguments', file=FILE, find="    matbal[0, 0] -= coef_ion[0](n_e, t_e)", replace="    matbal[0, 0] -= coef_ion[0](t_e, n_e)", expect='C09'),
+]
+TWINS = [
+    dict(name='keyword-arguments', file=FILE,
+         find="    fractional_abundance = _fractional_abundance(atomic_data, element, n_e, t_e, tcx_donor, tcx_donor_n,\n                                                 tcx_donor_charge)",
+         replace="    fractional_abundance = _fractional_abundance(atomic_data, element, n_e=n_e, t_e=t_e, tcx_donor=tcx_donor,\n                                                 tcx_donor_charge=tcx_donor_charge, tcx_donor_n=tcx_donor_n)"),
+]
